@@ -89,12 +89,15 @@ class MsSqlImpl(SqlImpl):
 
         sql.create_aliases(nd, {})
         table, query, sqa_expr = cls.compile_ast(nd, {col._uuid: 1 for col in final_select})
-
-        # mssql complains about OFFSET if there is no ORDER BY
-        if query.offset and not query.order_by:
-            query.order_by = [Order(final_select[0])]
-
         return cls.compile_query(table, query, sqa_expr)
+
+    @classmethod
+    def compile_query(cls, table, query, sqa_expr):
+        sel = super().compile_query(table, query, sqa_expr)
+        # mssql complains about OFFSET if there is no ORDER BY (in a subquery, too)
+        if query.offset and not query.order_by:
+            sel = sel.order_by(sqa_expr[query.select[0]])
+        return sel
 
     @classmethod
     def compile_ordered_aggregation(cls, *args: sqa.ColumnElement, order_by: list[sqa.UnaryExpression], impl):
